@@ -6,7 +6,27 @@ package knownfind
 
 import (
 	"go/ast"
+	"go/format"
+	"go/parser"
+	"go/token"
 )
+
+// GofmtBreaks is the general form of KF1: gofmt (format.Source) accepts the raw rendering and
+// turns it into text that no longer parses. jennifer returns format.Source's result unchanged
+// (C02 checks that separately), so when this holds the unparseable output is produced by
+// go/printer alone: it removes parentheses that the parser needed — around a generic composite
+// literal in a statement header (GofmtStripsGenericLitParens), or around a single unnamed result
+// that only parses inside parentheses (`func g(...T) (...T)`, `func() (A[0])`: the parser is
+// lenient inside a parenthesised list). A hand-written file with the same bytes is mangled
+// identically by gofmt.
+func GofmtBreaks(raw []byte) bool {
+	out, err := format.Source(raw)
+	if err != nil {
+		return false
+	}
+	_, err = parser.ParseFile(token.NewFileSet(), "", out, 0)
+	return err != nil
+}
 
 // GofmtStripsGenericLitParens reports whether f contains the class of finding
 // KF1: a parenthesised expression in an if / for / switch / range header whose
